@@ -35,6 +35,11 @@
  */
 
 #define MEMORY_LEAK_HASH_TABLE_SIZE 73
+#if defined(CPPUTEST_VERIF) && defined(CPPUTEST_VERIF_HASH_TABLE_SIZE)
+/* verification hook: bounded model checking uses a small bucket count (the code is uniform in it) */
+#undef MEMORY_LEAK_HASH_TABLE_SIZE
+#define MEMORY_LEAK_HASH_TABLE_SIZE CPPUTEST_VERIF_HASH_TABLE_SIZE
+#endif
 
 #include "Utest.h"
 #include "UtestMacros.h"
